@@ -41,6 +41,7 @@ var replayDrivers = map[string]replayDriver{
 	"tlscfg-server": {Pkg: "pkg/collector", File: "collector/tlscfg_replay_test.go", Test: "TestVerifReplayServerTLSConfig", TimeoutS: 120},
 	"tplttl":        {Pkg: "pkg/collector", File: "collector/tplttl_replay_test.go", Test: "TestVerifReplayTemplateTTL", TimeoutS: 120},
 	"kafka":         {Pkg: "pkg/kafka/producer/convertor/test", File: "kafka/publish_replay_test.go", Test: "TestVerifReplayKafka", TimeoutS: 120},
+	"kafkafields":   {Pkg: "pkg/kafka/producer/convertor/test", File: "kafka/fields_replay_test.go", Test: "TestVerifReplayKafkaFields", TimeoutS: 120},
 	"aggregate":     {Pkg: "pkg/intermediate", File: "intermediate/aggregate_replay_test.go", Test: "TestVerifReplayAggregate", TimeoutS: 120},
 	"window":        {Pkg: "cmd/collector", File: "cmdcollector/window_replay_test.go", Test: "TestVerifReplayWindow", TimeoutS: 120},
 	"expiry": {Pkg: "pkg/intermediate", File: "intermediate/expiry_replay_test.go", Test: "TestVerifReplayExpiry", TimeoutS: 120,
